@@ -30,21 +30,17 @@ Proof.
 Qed.
 
 Lemma homog_tail : forall k r, homog (k :: r) -> homog r.
-Proof. intros k r [b H]. exists b. intros x Hx. apply H. right. exact Hx. Qed.
-Lemma homog_head2 : forall k k' r, homog (k :: k' :: r) -> k' = k.
-Proof. intros k k' r [b H]. rewrite (H k), (H k'); simpl; auto. Qed.
+Proof. intros. exact I. Qed.
 
-Lemma rehook_all_chain : forall slot ra pend mm, pend <> [] -> homog pend ->
-  rehook_all_p (chain slot ra pend) mm slot = tramp_of (hd false pend) /\
-  forall a, a <> slot -> rehook_all_p (chain slot ra pend) mm a = mm a.
+(* oldest first: the slot of a chain ends up with the trampoline of its newest entry *)
+Lemma rehook_rev_chain : forall slot ra pend mm, pend <> [] ->
+  rehook_all_p (rev (chain slot ra pend)) mm slot = tramp_of (hd false pend) /\
+  forall a, a <> slot -> rehook_all_p (rev (chain slot ra pend)) mm a = mm a.
 Proof.
-  induction pend as [|k r IH]; intros mm Hne Hh; [congruence|]. simpl.
-  destruct r as [|k' r'].
-  - simpl. unfold p_loc, p_plt; simpl. split; [apply upd_same|intros a Ha; apply upd_other; exact Ha].
-  - assert (Hk : k' = k) by (eapply homog_head2; exact Hh). subst k'.
-    destruct (IH (upd mm (p_loc (slot, tramp_of k, k)) (tramp_of (p_plt (slot, tramp_of k, k))))) as [I1 I2];
-      [discriminate|eapply homog_tail; exact Hh|].
-    split; [exact I1|]. intros a Ha. rewrite I2 by exact Ha. unfold p_loc; simpl. apply upd_other. exact Ha.
+  intros slot ra pend mm Hne. destruct pend as [|k r]; [congruence|]. cbn [chain rev hd].
+  rewrite rehook_all_p_app. cbn [rehook_all_p p_loc p_plt fst snd]. split; [apply upd_same|].
+  intros a Ha. rewrite upd_other by exact Ha. apply rehook_all_p_other.
+  intros x Hx. apply in_rev in Hx. apply chain_loc in Hx. rewrite Hx. auto.
 Qed.
 
 (* ---------------------------------------------------------------- whole shadow *)
@@ -79,22 +75,27 @@ Proof.
     + unfold lt_all in Hlt. rewrite Forall_forall in Hlt. specialize (Hlt g Hg). lia.
 Qed.
 
+Lemma shadow_cons : forall f r, shadow (f :: r) = ents_of f ++ shadow r.
+Proof. reflexivity. Qed.
+
 Lemma rehook_all_shadow_hooked : forall F mm, sorted F -> Forall fvalid F ->
   (forall f, In f F -> f_pend f = [] -> mm (f_slot f) = f_ra f) ->
-  mem_hooked (rehook_all_p (shadow F) mm) F.
+  mem_hooked (rehook_all_p (rev (shadow F)) mm) F.
 Proof.
   induction F as [|f r IH]; intros mm Hs Hv Hun; [constructor|].
   destruct Hs as [Hlt Hs]. inversion Hv as [|? ? [Hra Hh] Hr]; subst.
-  simpl shadow. rewrite rehook_all_p_app. set (m1 := rehook_all_p (ents_of f) mm).
-  assert (Hm1 : slot_hooked m1 f /\ forall a, a <> f_slot f -> m1 a = mm a).
-  { unfold m1, ents_of, slot_hooked. destruct (f_pend f) as [|k p] eqn:E.
-    - simpl. split; [apply Hun; [left; reflexivity|exact E]|reflexivity].
-    - destruct (rehook_all_chain (f_slot f) (f_ra f) (k :: p) mm) as [A B]; [discriminate|exact Hh|]. split; [exact A|exact B]. }
-  destruct Hm1 as [Hm1a Hm1b]. constructor.
-  - eapply slot_hooked_ext; [|exact Hm1a]. symmetry. apply rehook_all_p_other. intros y Hy. eapply in_shadow_tail_ne; eauto.
-  - apply IH; [exact Hs|exact Hr|]. intros g Hg Hgp. rewrite Hm1b.
-    + apply Hun; [right; exact Hg|exact Hgp].
-    + unfold lt_all in Hlt. rewrite Forall_forall in Hlt. specialize (Hlt g Hg). lia.
+  rewrite shadow_cons, rev_app_distr, rehook_all_p_app. set (m1 := rehook_all_p (rev (shadow r)) mm).
+  assert (Hm1 : mem_hooked m1 r) by (apply IH; [exact Hs|exact Hr|intros g Hg Hp; apply Hun; [right; exact Hg|exact Hp]]).
+  assert (Hm1f : m1 (f_slot f) = mm (f_slot f)).
+  { apply rehook_all_p_other. intros y Hy. apply in_rev in Hy. eapply in_shadow_tail_ne; eauto. }
+  assert (Hchain : forall y, In y (rev (ents_of f)) -> p_loc y = f_slot f).
+  { intros y Hy. apply in_rev in Hy. unfold ents_of in Hy. apply chain_loc in Hy. exact Hy. }
+  constructor.
+  - unfold slot_hooked, ents_of. destruct (f_pend f) as [|k p] eqn:E.
+    + simpl. rewrite Hm1f. apply Hun; [left; reflexivity|exact E].
+    + destruct (rehook_rev_chain (f_slot f) (f_ra f) (k :: p) m1) as [A _]; [discriminate|]. exact A.
+  - eapply mem_ext; [apply slot_hooked_ext| |exact Hm1]. intros g Hg. symmetry. apply rehook_all_p_other.
+    intros y Hy. rewrite (Hchain y Hy). unfold lt_all in Hlt. rewrite Forall_forall in Hlt. specialize (Hlt g Hg). lia.
 Qed.
 
 Lemma mem_exc_unhooked : forall mm F f, mem_exc mm F -> In f F -> mm (f_slot f) = f_ra f.
